@@ -1257,6 +1257,9 @@ func (s *BgpServer) handleRouteRefresh(peer *peer, e *fsmMsg) {
 	}
 	rfList := []bgp.Family{rf}
 	s.getBestFromLocalCallback(peer, rfList, true, true, func(paths []*table.Path, filtered []*table.Path) {
+		// as for a soft reset out, what the peer holds but the export policy
+		// now rejects is taken back
+		paths = append(filteredWithdrawals(peer, filtered), paths...)
 		if len(paths) > 0 {
 			peer.updateRoutes(paths...)
 			sendfsmOutgoingMsg(peer, paths)
@@ -2875,6 +2878,25 @@ func (s *BgpServer) softResetIn(addr string, family bgp.Family) error {
 	return err
 }
 
+// filteredWithdrawals returns withdrawals for the paths of filtered that the
+// peer has been sent: routes the export policy now rejects.
+func filteredWithdrawals(peer *peer, filtered []*table.Path) []*table.Path {
+	withdrawals := make([]*table.Path, 0, len(filtered))
+	for _, path := range filtered {
+		if path == nil || path.IsEOR() {
+			continue
+		}
+		if !peer.IsFamilyEnabled(path.GetFamily()) {
+			continue
+		}
+		if !peer.hasPathAlreadyBeenSent(path) {
+			continue
+		}
+		withdrawals = append(withdrawals, path.Clone(true))
+	}
+	return withdrawals
+}
+
 func (s *BgpServer) softResetOut(addr string, family bgp.Family, deferral bool) error {
 	peers, err := s.addrToPeers(addr)
 	if err != nil {
@@ -2919,21 +2941,7 @@ func (s *BgpServer) softResetOut(addr string, family bgp.Family, deferral bool) 
 
 		s.getBestFromLocalCallback(peer, families, true, true, func(paths []*table.Path, filtered []*table.Path) {
 			if len(filtered) > 0 && !deferral {
-				// withdraw paths that export policy now rejects
-				withdrawals := make([]*table.Path, 0, len(filtered))
-				for _, path := range filtered {
-					if path == nil || path.IsEOR() {
-						continue
-					}
-					if !peer.IsFamilyEnabled(path.GetFamily()) {
-						continue
-					}
-					if !peer.hasPathAlreadyBeenSent(path) {
-						continue
-					}
-					withdrawals = append(withdrawals, path.Clone(true))
-				}
-				paths = append(withdrawals, paths...)
+				paths = append(filteredWithdrawals(peer, filtered), paths...)
 			}
 			if len(paths) > 0 {
 				if deferral {
